@@ -9,7 +9,10 @@ PairCombos1 == {
   Cfg(<<"max_moneyness", "barrier_up_3", "module_prev">>, "relu", << <<2, 3, -1>> >>, <<0>>, <<1>>, TRUE),
   Cfg(<<"max_log_moneyness", "barrier_dn_2", "underlier_log_spot">>, "linear", << <<1, -2, 1>> >>, <<1>>, <<>>, FALSE)
 }
+AllPairs1 == Singles1 \cup PairCombos1
 PairCombos2 == {
+  Cfg(<<"moneyness", "variance">>, "linear", << <<1, 2>>, <<-1, 1>> >>, <<0, 1>>, <<1, 2>>, TRUE),
+  Cfg(<<"max_moneyness", "volatility">>, "relu", << <<2, -1>>, <<-1, 3>> >>, <<0, -1>>, <<2, 0>>, FALSE),
   Cfg(<<"moneyness", "variance", "prev_hedge">>, "linear", << <<1, 2, 1, 0>>, <<-1, 1, 1, -1>> >>, <<0, 1>>, <<1, 2>>, TRUE)
 }
 =============================================================================
